@@ -107,6 +107,79 @@ claim("C02",
       "the names of auto-named private constants (F3 is the case where that matters).",
       "TLA+ transcription of the sort checked by TLC + TLC trace validation of repeated executions under perturbation histories", "5/C02")
 
+claim("C05",
+      "TLC checks Pool.tla exhaustively: histories of runs over one pool (fill, rerun, rerun needing more batches, remove a store, replace "
+      "the summary / distance) for every stored set of the stated form, on the canonical graph parameters -> simulator -> summary -> "
+      "distance with values that record WHICH DRAW of the batch generator each stochastic node consumed (a generator shifted by a skipped "
+      "node is visible); invariants Transparent, NoResim, PoolFresh; refuted controls: a strict subset of the parameters stored, and a "
+      "store removal that leaves only parameters.  The same kinds of histories run on real OutputPool and on-disk ArrayPool objects "
+      "(incl. close + reopen, and runs with another batch_size / seed) with Rejection on a model whose simulator output encodes batch, "
+      "row, received parameters and its own random draw; every run has a pool-free twin; operations log calls per (node, batch); the pool "
+      "content is compared with a fresh computation of every held batch.  TLC validates each history against Pool_Trace.tla.",
+      "Rejection-type runs only (parameters from the prior); canonical graph shape with two parameters; known finding F29 (all parameters "
+      "stored, simulator not, an un-stored simulator-dependent output requested) is classified by its exact configuration.",
+      "TLA+ pool/loader model checked by TLC + TLC trace validation of run histories with pool-free twins", "5/C05")
+
+claim("C18",
+      "TLC checks Vectorize.tla exhaustively (arity<=3, each input non-array or array of length 0..3, every constants mask, batch_size "
+      "None/0..3, dtype None/False/some, meta absent/fresh/stale): the transcription of run_vectorized equals the declarative per-row "
+      "definition (length, per-row arguments, constants, keywords, row index in meta, container); and External.tla (all templates of <=2-3 "
+      "literal/positional/keyword fields x explicit keywords x meta x generator x all draw streams over 0..High-1): substitution with "
+      "explicit keywords winning, seed = sub-seed of the generator state at the row index, distinct per row when meta is passed; 7 broken "
+      "variants and 16 corrupted traces are refuted.  The real elfi.tools.vectorize is called with id-carrying symbolic operations "
+      "(exhaustive arity<=3 x masks x scalar/array x batch_size x dtype, random, and as Simulator/Summary of real model runs) and the real "
+      "external_operation runs echo/printf templates (exhaustive short templates in 6 contexts, random, model runs repeated with "
+      "equal/different seeds); TLC recomputes the expected per-row applications, command lines, parsed arrays and seed relations "
+      "(Vectorize_Trace.tla, External_Trace.tla).",
+      "Small-scope bounds at design level; values restricted to small integers and multiples of 1/8 (exact text<->float); /bin/sh "
+      "echo/printf, numpy array construction and the harness projections are trusted; batch_size is treated as the vectorizer's own "
+      "parameter; known finding F26 (no meta => rows share one seed) is classified, pinned and reported on every run.",
+      "TLA+ design models checked by TLC + TLC trace validation of recorded vectorize / external_operation calls", "5/C18")
+
+claim("C12",
+      "TLC checks Distance.tla exhaustively (ndarray-grain transcription of distance_as_discrepancy - column_stack / atleast_2d / "
+      "concatenate / cdist / reshape - against the statement-level definition, for batch sizes 1..3(4), all 84 layouts of 1-3 summaries of "
+      "widths scalar..3, 14 metric descriptors with and without p / w / V / VI, patterned and exhaustive small integer data) and "
+      "Welford.tla exhaustively (the batched recurrence of AdaptiveDistance.add_data over exact rationals: every integer data set of <= 6(7) "
+      "rows x 1 column / <= 3(5) rows x 2 columns with EVERY ordered partition into add_data calls gives the population variance and mean; "
+      "up to 4 update rounds: distance function r+1 is Euclidean / scale of round r, no action changes an existing column).  Real "
+      "elfi.Distance and elfi.AdaptiveDistance nodes are run on integer data (node.generate(with_values) with and without batch_size, "
+      "model.generate, Rejection.sample; all ordered partitions of small adaptation sets, several update rounds, every batch size dividing "
+      "n_sim) and TLC validates every recorded evaluation against Distance_Trace.tla / Welford_Trace.tla, which recompute the expected "
+      "values from the logged inputs in exact integer / rational arithmetic.",
+      "Integer sub-domain only (cityblock, chebyshev, sqeuclidean, minkowski p in {1,2}, euclidean, seuclidean V in {1,2,4}, mahalanobis "
+      "with integer VI; Euclidean forms compared through d*d to 1e-3, scales through scale^2 to 1e-6..1e-3); scipy's metric definitions are "
+      "transcribed in DistanceOps.tla; rounds with a constant column only decide the scale clause; AdaptiveDistanceSMC is covered only "
+      "through the Rejection sampler it delegates to.",
+      "TLA+ design models checked by TLC + TLC trace validation of recorded Distance / AdaptiveDistance evaluations", "5/C12")
+
+claim("C13",
+      "TLC checks WQuantile.tla (code scan => definition, least valid element, tie-order irrelevance, monotone in alpha, scale invariance; "
+      "samples <=4, values 0..3, weights 0..3, alpha k/8), WeightedStats.tla (code-shaped rational evaluation == reliability-weights variance / "
+      "(sum w)^2/sum w^2, scale invariance, zero weights irrelevant) and GmRvs.tla (accept loop: exact count, all valid, disjoint windows, "
+      "termination under fairness) exhaustively with refuted negative controls; the real weighted_sample_quantile / weighted_var / compute_ess / "
+      "GMDistribution.pdf, logpdf, rvs are run on the same finite domains (all sample x weight pairs up to length 4 x 9 alphas, plus seeded "
+      "random cases) and TLC validates every call against WStats_Trace.tla / GmRvs_Trace.tla, recomputing the expected value from the logged "
+      "inputs in exact integer / rational arithmetic.",
+      "Exact sub-domains only: integer samples/weights (power-of-two rescaling), variance/ESS at 1e-6 fixed point, mixture density on the "
+      "integer lattice with diagonal covariance (table of (2pi)^(-d/2)exp(-k/2) to 1e-8), logpdf vs math.log of the function's own pdf; "
+      "M:wq-scan only where floats are provably exact, boundary alphas judged by the definition both ways; non-diagonal covariances and "
+      "unsatisfiable constraints not decided.",
+      "TLA+ design models checked by TLC + TLC trace validation of recorded calls with recording random_state / prior_logpdf", "5/C13")
+
+claim("C19",
+      "TLC checks LineSearch.tla (all objective predicates, K<=4/6, rep_lim<=5/8: positive result, below-up-to-result, never passes a failed "
+      "probe, termination), BBox.tla (every signed-permutation rotation in 1-3 D x centres x raw limits incl. degenerate and threshold ones: "
+      "sample inside contains, forward/inverse maps agree, density 1/volume, integral one) and RomcPosterior.tla (indicator counting with <= "
+      "and weights with <), each with refuted negative controls.  Every terminal behaviour of LineSearch.tla is replayed into the real "
+      "line_search; real line_search / RegionConstructor, NDimBoundingBox (all exact rotations plus random orthonormal ones) and RomcPosterior "
+      "executions are validated by TLC against LineSearch_Trace, BBox_Trace and RomcPosterior_Trace, with expected values recomputed from the "
+      "inputs in exact big-number arithmetic.",
+      "Small scope at design level; clause (b) exact only for signed-permutation rotations (orthonormal rotations rely on the harness's float "
+      "forward map); faces, the 1e-6 shell around them and the exact 0.001 widening threshold are not decided; floats compared at seven "
+      "significant digits; stub prior; known finding F25 (rep_lim=0).",
+      "TLA+ design models checked by TLC + TLC behaviour emission + TLC trace validation", "5/C19")
+
 ALL = ["C%02d" % i for i in range(1, 21)]
 
 
